@@ -35,7 +35,7 @@ EXTRA_UNIVERSES = {
 }
 LAYERS = [["L1", "L2"], ["a", "b", "c"], ["x", "y", "z", "E"], ["social", "work"], ["", "b"], [0, 1, 2]]
 WEIGHTS = [0.5, 1, 1.5, 2, 2.5, 3, 7, 2.0, 1.0, 0, 0.0, 0.1, 0.2, 1 / 3, 4e-12, 3e-12, 2**53 + 1, 2**60 + 3]  # (the last two: integers no float represents)
-MDS = [None, {}, {"a": 1}, {"c": "x"}, {"a": 2, "n": {"k": [1, 2]}}, {"role": "hub", "t": None}]
+MDS = [None, {}, {"a": 1}, {"c": "x"}, {"a": 2, "n": {"k": [1, 2]}}, {"role": "hub", "t": None}, {"tags": ["x"]}, {"tags": ["y"], "a": 1}]
 FIELDS = ["a", "c", "f", "role"]
 VALUES = [0, 1, "v", [1, 2], {"q": 1}, None, 2.5, "", False]
 BAD_TIMES = [-1, -3, 1.5, "2", None, 2.0]
@@ -432,9 +432,10 @@ def hub_script(rng, cfg):
 # -------------------------------------------------------------------------------------
 # applying an abstract op to the real object
 # -------------------------------------------------------------------------------------
-def apply_op(h, kind, op, rng):
+def apply_op(h, kind, op, rng, keep=None):
     """Calls the public API.  Fresh deep copies of every mutable argument are passed so
-    that aliasing with harness-owned objects cannot blur the observation."""
+    that aliasing with harness-owned objects cannot blur the observation.  `keep` (a dict) receives the very argument
+    objects of a batched insertion, so that the caller can hand them to a second call (`reuse_arguments`)."""
     name, a = op
     dc = copy.deepcopy
     if name == "add_node":
@@ -469,6 +470,8 @@ def apply_op(h, kind, op, rng):
             kw["weights"] = ws
         if a["use_md"]:
             kw["metadata"] = [dc(it[2]) if it[2] is not None else {} for it in a["items"]]
+        if keep is not None:
+            keep["call"] = (pos, kw)
         return h.add_edges(*pos, **kw)
     if name == "remove_edge":
         args = lib_args(kind, a["key"], rng)
@@ -601,6 +604,50 @@ def construct_initial(ctx, rng, cfg, model, tag):
     return h, S
 
 
+def zlib_coin(a):
+    """a deterministic coin that does not consume the case's random stream"""
+    import zlib
+
+    return zlib.crc32(repr([repr(sorted_key(it[0])) for it in a["items"]]).encode()) % 2 == 0
+
+
+def reuse_arguments(ctx, tag, kind, model, weighted, op, call_args, wit):
+    """A client that built its hyperedge / weights / metadata lists once hands the SAME objects to a second call (here: the
+    same batch into a fresh container).  The second container must be what the model makes of the original values: a library
+    that rewrote the caller's lists during the first call (merged weights in place, sorted, popped) shows here - and only
+    here, the first container being correct."""
+    pos, kw = call_args
+    name, a = op
+    if len(a["items"]) > 1 and not a.get("short_weights") and zlib_coin(a):
+        # ... paired with the hyperedges in another order (the weights / metadata lists are still the caller's original objects)
+        items = a["items"]
+        n = len(items)
+        op = (name, dict(a, items=[(items[n - 1 - i][0], items[i][1], items[i][2]) for i in range(n)],
+                         may_refuse=a.get("may_refuse")))
+        pos = [list(reversed(p)) for p in pos]
+    g = new_container(kind, weighted)
+    S0 = observe(g)
+    out0 = model.outcome(S0, op)
+    if out0.unknown:
+        return
+    ctx.event("arguments-handed-to-a-second-call")
+    try:
+        g.add_edges(*pos, **kw)
+    except Exception as e:
+        ctx.check(f"{tag}:transition", out0.may_raise, f"{tag}:arguments-handed-to-a-second-call:add_edges:raised:{type(e).__name__}",
+                  lambda: dict(wit(), error=repr(e)), abort=True)
+        return
+    P = []
+    Sg = observe(g, P)
+    ok = not P and not out0.must_raise and any(not R.diff(Sg) for R in out0.states)
+    if not ok and out0.states:
+        best = min(out0.states, key=lambda R: len(R.diff(Sg)))
+        ctx.check(f"{tag}:transition", False, f"{tag}:arguments-handed-to-a-second-call:add_edges:" + ",".join(best.diff(Sg) + P),
+                  lambda: dict(wit(), second_container=Sg.describe(), expected=best.describe()), abort=True)
+    else:
+        ctx.tick(f"{tag}:transition")
+
+
 # -------------------------------------------------------------------------------------
 # running a history under monitoring
 # -------------------------------------------------------------------------------------
@@ -657,8 +704,9 @@ def run_history(ctx, rng, cfg, ops=None, battery_every=1, after_event=None, tag=
             except Exception:
                 held = None
         raised = None
+        keep = {}
         try:
-            apply_op(h, kind, op, rng)
+            apply_op(h, kind, op, rng, keep)
         except Exception as e:  # the client boundary: any exception is a rejection
             raised = e
             ctx.exc(name, e)
@@ -668,11 +716,9 @@ def run_history(ctx, rng, cfg, ops=None, battery_every=1, after_event=None, tag=
             except Exception:
                 ok_held = False
             ctx.check(f"{tag}:listings-are-snapshots", ok_held, f"{tag}:listing-returned-earlier-changed-after:{name}", lambda: {"trace": trace[-6:], "held_edges": repr(held[0])[:300]}, abort=True)
-            # ... and the caller owns them: emptying a listing it was handed must not change what the container answers next
-            # (the observation taken right below is compared with the model as usual)
-            for lst in held:
-                if isinstance(lst, list):
-                    lst.clear()
+            # (what a client does to a container it was handed, by means other than library calls, is outside every property's
+            # histories: the listings are only compared, never edited - DESIGN 2.3)
+            held = None
         P = []
         try:
             S_after = observe(h, P)
@@ -707,6 +753,8 @@ def run_history(ctx, rng, cfg, ops=None, battery_every=1, after_event=None, tag=
             else:
                 ctx.tick(f"{tag}:transition")
         live[which][1] = S_after
+        if raised is None and "call" in keep and not out.unknown and rng.random() < 0.4:
+            reuse_arguments(ctx, tag, kind, model, S.weighted, op, keep["call"], wit)
         # other live objects (copies) must be unaffected
         for j, (g, Sg) in enumerate(live):
             if j != which:
